@@ -232,3 +232,16 @@ package rules
 //@   ensures res != nil ==> (forall i int :: 0 <= i && i < len(res.DstNet) ==> netWanted(res.DstNet[i], ipVersion))
 //@   ensures res != nil ==> (forall i int :: 0 <= i && i < len(res.NotSrcNet) ==> netWanted(res.NotSrcNet[i], ipVersion) && !netCatchAll(res.NotSrcNet[i], ipVersion))
 //@   ensures res != nil ==> (forall i int :: 0 <= i && i < len(res.NotDstNet) ==> netWanted(res.NotDstNet[i], ipVersion) && !netCatchAll(res.NotDstNet[i], ipVersion))
+
+//@ -- The per-endpoint chain, end of tier: the "deny if no policy passed the packet" rule of a tier is rendered
+//@ -- only if THAT tier has, for this direction, a group with at least one non-staged policy, and the tier's
+//@ -- default action is not Pass - a tier holding only staged policies never changes the verdict.
+//@ ghost c09TierHas bool
+//@ func (*DefaultRuleRenderer).endpointIptablesChain
+//@   property C09
+//@   option safety off
+//@   option callpre off
+//@   ghost at call ClearMark#6: c09TierHas = false
+//@   ghost at call HasNonStagedPolicies: c09TierHas = c09TierHas || res
+//@   ghost at call IptablesFilterDenyAction#8: check c09TierHas && tier.DefaultAction != "Pass"
+//@   loop 2 invariant c09TierHas == endOfTierDrop
